@@ -177,6 +177,7 @@ class Emit:
         self.sites: list[dict[str, Any]] = []
         self.comments: list[dict[str, Any]] = []
         self.unit = 0
+        self.unit_line = 1
         self.serial = 0
         self.vars = 0
         self.macros = 0
@@ -198,7 +199,9 @@ class Emit:
         return " "
 
     def new_unit(self) -> int:
+        """A new markup unit (tag / output / comment / liquid line) starts here."""
         self.unit += 1
+        self.unit_line = self.line
         return self.unit
 
     def wc(self) -> str:
@@ -247,6 +250,7 @@ class Emit:
             "construct": construct, "singular": f"m{self.serial}@{self.tpl} one{extra}",
             "plural": None, "ctx": None, "ctx_mode": "none", "count": None,
             "obliged": True, "flags": [], "lines": [], "unit": unit,
+            "unit_line": self.unit_line,
         }
         self.sites.append(s)
         return s
@@ -297,6 +301,7 @@ class Emit:
             self.w("{% # " + text + " %}")
         else:
             self.w("{% # " + text + "\n   # more %}")
+        self.comments[-1]["end_line"] = self.line - (1 if kind == "liquid-line" else 0)
 
     # -- translation filter applied to an already written left operand ----------
     def tfilter(self, s: dict[str, Any], ml: bool, form: str | None = None,
@@ -526,25 +531,29 @@ class Emit:
             return
         host = host or rng.choice(["output", "output", "output", "echo", "assign"])
         ml = rng.random() < 0.45
+        first_site, first_line = len(self.sites), self.line
         if host == "output":
             self.w("{{" + self.wc() + self.gap(ml))
-            self.expression("output-ml" if ml else "output", u, ml, form=form, shape=shape)
+            self.expression("output", u, ml, form=form, shape=shape)
             self.w(self.gap(ml) + self.wc() + "}}")
         elif host == "echo":
             self.open_tag("echo")
             self.w(self.gap(ml))
-            self.expression("echo-ml" if ml else "echo", u, ml, form=form, shape=shape)
-            self.w(self.gap(ml).rstrip(" ") if ml else "")
+            self.expression("echo", u, ml, form=form, shape=shape)
             self.close_tag()
         else:
             self.vars += 1
             self.open_tag("assign")
             self.w(self.gap(ml) + f"v{self.vars}" + self.gap(ml) + "=" + self.gap(ml))
-            self.expression("assign-ml" if ml else "assign", u, ml, form=form, shape=shape)
+            self.expression("assign", u, ml, form=form, shape=shape)
             self.close_tag()
-            if rng.random() < 0.5:
-                self.new_unit()
-                self.w("{{ v%d }}" % self.vars)
+        if self.line > first_line:
+            # the statement really spans several lines
+            for s in self.sites[first_site:]:
+                s["construct"] = s["construct"].replace(host, host + "-ml", 1)
+        if host == "assign" and rng.random() < 0.5:
+            self.new_unit()
+            self.w("{{ v%d }}" % self.vars)
 
     def stmt_translate(self, variant: dict[str, Any] | None = None) -> None:
         """`{% translate ... %}…[{% plural %}…]{% endtranslate %}` (never in a liquid tag)."""
@@ -552,7 +561,7 @@ class Emit:
         v = variant or {}
         u = self.new_unit()
         ml = v.get("ml", rng.random() < 0.35)
-        s = self.new_site("tag", "translate-tag-ml" if ml else "translate-tag", u)
+        s = self.new_site("tag", "translate-tag", u)
         s["filter"] = "translate"
         s["lines"] = [self.line]
         s["lit_line"] = self.line
@@ -598,6 +607,8 @@ class Emit:
         for i, a in enumerate(args):
             self.w((rng.choice([", ", ",", " ", ",\n  "] if ml else [", ", ",", " "]) if i else " ") + a)
         self.close_tag()
+        if self.line > s["lines"][0]:
+            s["construct"] = "translate-tag-ml"
 
         def body(text: str) -> None:
             lead = rng.choice(["", " ", "\n", "\n    "])
@@ -1015,8 +1026,9 @@ def enum_cases(rng: random.Random) -> list[dict[str, Any]]:
             e.stmt_message(form=form, host="output", shape="simple")
         elif host == "output-ml":
             e.ml = 1.0
-            e.w("text\n{{\n")
+            e.w("text\n")
             e.new_unit()
+            e.w("{{\n")
             e.message_operand("output-ml", e.unit, True, None, form)
             e.w("\n}}")
         elif host == "echo":
@@ -1169,6 +1181,20 @@ class Checker:
         self.extract_from_template = extract_from_template
         self.extract_from_templates = extract_from_templates
         self.verbose = False
+        self._best: dict[str, int] = {}
+
+    def viol(self, key: str, what: str, witness: dict[str, Any]) -> None:
+        """ctx.violation, but after the first few hits of a key a witness is only
+        built into the record when its case is smaller than the smallest seen."""
+        ctx = self.ctx
+        size = sum(len(t) for t in witness["case"]["templates"].values())
+        v = ctx.violations.get(key)
+        if v is not None and v["count"] >= 6 and size >= self._best.get(key, 0):
+            v["count"] += 1
+            return
+        if key not in self._best or size < self._best[key]:
+            self._best[key] = size
+        ctx.violation(key, what, witness)
 
     # -- extraction under the no-raise monitor -------------------------------------
     def extract(self, t: Any, case: dict[str, Any], name: str, **kw: Any) -> list[dict[str, Any]] | None:
@@ -1178,7 +1204,7 @@ class Checker:
             got = [_norm_entry(m) for m in self.extract_from_template(t, **kw)]
         except Exception as e:  # noqa: BLE001
             where = "empty-template" if not t.nodes else _innermost(e.__traceback__)
-            ctx.violation(
+            self.viol(
                 f"extraction-raises:{type(e).__name__}:{where}",
                 f"extract_from_template raised {type(e).__name__}: {str(e)[:100]} on a template that parses",
                 {"case": _slim(case, only=name), "template": name, "kwargs": kw},
@@ -1226,7 +1252,7 @@ class Checker:
             except Exception as e:  # noqa: BLE001
                 where = ("empty-template" if any(not t.nodes for t in tpls.values())
                          else _innermost(e.__traceback__))
-                ctx.violation(
+                self.viol(
                     f"extraction-raises:{type(e).__name__}:{where}",
                     f"extract_from_templates raised {type(e).__name__}: {str(e)[:100]}",
                     {"case": _slim(case), "catalog": True},
@@ -1303,8 +1329,8 @@ class Checker:
                     "extracted_same_id": same}
 
         if not same:
-            ctx.violation(
-                f"not-extracted:{kindname}:{site['construct']}",
+            self.viol(
+                f"not-extracted:{kindname}:{site['construct'].replace('-ml', '')}",
                 f"render looked up {func}({singular!r}) but extraction of template "
                 f"{site['tpl']!r} reports no message with that id",
                 witness(),
@@ -1320,7 +1346,7 @@ class Checker:
                 reasons.append(flags[0] if flags else "context")
             if not reasons:
                 reasons.append("combination")
-            ctx.violation(
+            self.viol(
                 f"family-mismatch:{kindname}:{'+'.join(reasons)}",
                 f"render called {func}(ctx={mctx!r}, {singular!r}, plural={plural!r}) but extraction "
                 f"reports only {sorted({e['func'] for e in same})} for that id",
@@ -1329,7 +1355,7 @@ class Checker:
             return
         good = [e for e in fam if e["lineno"] in site["lines"]]
         if not good:
-            ctx.violation(
+            self.viol(
                 f"lineno:{site['construct']}",
                 f"message {singular!r} was written on line {site['lines']} but extraction reports "
                 f"line {sorted({e['lineno'] for e in fam})}",
@@ -1361,7 +1387,7 @@ class Checker:
         attached: dict[str, int] = {}
 
         def viol(how: str, what: str, e: dict[str, Any], c: dict[str, Any] | None) -> None:
-            ctx.violation(f"comment-attached:{how}", what,
+            self.viol(f"comment-attached:{how}", what,
                           {"case": _slim(case, only=name), "template": name, "entry": e,
                            "comment": c, "comment_tags": list(tags)})
 
@@ -1394,6 +1420,11 @@ class Checker:
                 elif c["id"] in attached and attached[c["id"]] != s["unit"]:
                     viol("to-more-than-one-message",
                          f"comment {c['id']} is attached to more than one message", e, c)
+                elif s["unit_line"] - c["end_line"] >= 2:
+                    viol("not-adjacent",
+                         f"comment {c['id']} ends on line {c['end_line']} but the statement of message "
+                         f"{e['singular']!r} starts on line {s['unit_line']}: at least one whole line "
+                         f"lies between them, the message does not immediately follow", e, c)
                 else:
                     attached[c["id"]] = s["unit"]
                     if c["line"] != s.get("lit_line", c["line"]):
@@ -1436,7 +1467,7 @@ def floors(tier: str) -> dict[str, int]:
         "extraction_calls": 2_000 * k,
         "lineno_matched_beyond_line_1": 1_000 * k,
         "set:matched_constructs": 30,
-        "set:matched_forms": 14,
+        "set:matched_forms": 12,
         "set:comment_kinds_attached": 5,
         "enum_cases": 1_000,
         "edge_templates_extracted": 800,
